@@ -72,6 +72,11 @@ impl FixtureDatabase {
             self.cleanup_definitions_for_file(&file_path);
         }
 
+        // The file's definitions, usages or imports may have changed even if no new
+        // definition gets recorded below (e.g. an edit that only removes fixtures or only
+        // changes imports), so invalidate the version-keyed caches here as well.
+        self.invalidate_cycle_cache();
+
         // Check if this is a conftest.py
         let is_conftest = file_path
             .file_name()
